@@ -314,7 +314,30 @@ func c02Numbers(c *eng.Ctx, d *dbInfo, k *kvAnalysis) {
 			if hit, _ := eng.Search(f, w.In, nil, nil, func(x ssa.Instruction) bool { return x == ssa.Instruction(r) }); hit == nil {
 				continue
 			}
-			c.Check(c.P.MemSame(rv[0], w.Key), "R-C02-3", f, r.Pos(), eng.InstrStr(r), "a successful put returns exactly the number its value was stored under", "returns "+eng.ValStr(rv[0])+", stored under "+eng.ValStr(w.Key))
+			same := c.P.MemSame(rv[0], w.Key)
+			if ph, isPhi := eng.Origin(rv[0]).(*ssa.Phi); isPhi && !same {
+				// a result variable assigned per branch: the values it can
+				// hold when this insert has been executed
+				same = true
+				n := 0
+				for i, e := range ph.Edges {
+					pred := ph.Block().Preds[i]
+					reach := pred == w.In.Block()
+					if !reach {
+						hit, _ := eng.Search(f, w.In, nil, nil, func(x ssa.Instruction) bool { return x.Block() == pred })
+						reach = hit != nil
+					}
+					if !reach {
+						continue
+					}
+					n++
+					if !c.P.MemSame(e, w.Key) {
+						same = false
+					}
+				}
+				same = same && n > 0
+			}
+			c.Check(same, "R-C02-3", f, r.Pos(), eng.InstrStr(r), "a successful put returns exactly the number its value was stored under", "returns "+eng.ValStr(rv[0])+", stored under "+eng.ValStr(w.Key))
 		}
 	}
 	// creation literal is consistent, and inserted under an absent name
